@@ -92,7 +92,7 @@ pub fn run() {
 		Ok((b, c, names)) => cx.note("model_bound_to_fixtures", json!({"replays_walked_with_spec_sizes": b, "of_which_canonical_reemission_is_byte_identical": c, "files": names})),
 		Err(e) => crate::common::machinery(&e),
 	}
-	cx.note("rule", json!("(a) all 784 versions x 4 fill patterns (position-unique A, complement B, all-ones, IEEE specials) with 2 frames / 3 characters / items; (b) per field, at the newest and at the oldest version containing it (thorough: at every layout-class edge containing it): all 256 values of every 8-bit field, all 65536 values of every 16-bit field (quick: 68 lane-boundary values), (c) 32 walking ones, 32 walking zeros, IEEE specials and extremes for every 32-bit field; each decoded column compared with the big-endian bytes at the SPEC offset, column present iff version >= since; (d) all 784 versions through the event-by-event API (columns and row view after every event); (e) the C04 history exploration and the cross-product replays (absences, returns, rollbacks, items) through the same leaf-by-leaf comparison; checked on Game.frames and on the Arrow struct array addressed by field name; non-trivial = every case (all carry distinct field values)"));
+	cx.note("rule", json!("(a) all 784 versions x 4 fill patterns (position-unique A, complement B, all-ones, IEEE specials) with 2 frames / 3 characters / items; (b) per field, at the newest and at the oldest version containing it (thorough: at every layout-class edge containing it): all 256 values of every 8-bit field, all 65536 values of every 16-bit field (quick: 68 lane-boundary values), (c) 32 walking ones, 32 walking zeros, IEEE specials and extremes for every 32-bit field; each decoded column compared with the big-endian bytes at the SPEC offset, column present iff version >= since; (d) all 784 versions through the event-by-event API (columns and row view after every event); (e) the C04 history exploration and the cross-product replays (absences, returns, rollbacks, items) through the same leaf-by-leaf comparison, columns and finished row view; checked on Game.frames and on the Arrow struct array addressed by field name; non-trivial = every case (all carry distinct field values)"));
 	cx.note("exhaustive", json!(true));
 	cx.note("assumptions", json!(["32-bit fields are not enumerated over all 2^32 values; the decode path is value-oblivious, which the complete 8/16-bit sweeps corroborate but do not prove", "spec tables are hand-transcribed from the Slippi SPEC and self-checked (literal offset == running sum) at start-up"]));
 	let mut jobs: Vec<(String, Arc<Vec<u8>>, &'static str)> = vec![];
@@ -163,6 +163,6 @@ pub fn run() {
 	}
 	// fields against the bytes also where characters come and go: the history exploration and the cross
 	// product of the optional dimensions (one-shot reader against the reference walker, every leaf)
-	super::c04::run_histories(A_ONESHOT, 0, false);
+	super::c04::run_histories(A_ONESHOT | A_TRANSPOSE, 0, false);
 	finish(cx);
 }
